@@ -21,6 +21,7 @@ func init() {
 			runC03(c)
 			base(c, "DECLARED", "STATE", "ALIAS", "TEXT")
 			runFieldIdentity(c, "C03-FIELDID")
+			runExemptType(c, "C03-EXEMPT")
 			importRules(c, "C18", runC18, "C03-URLENTRY", "a URL parameter without a value is judged as empty: key and value are cut from the parameter's own text (rule C18-URL)", 3, ruleIn("C18-URL"))
 			importRules(c, "C02", runC02Loop, "C03-LOOP", "skipping a rule on an empty value continues with the next rule: every walker's rule loop leaves only through its header (rule C02-LOOP), so a required placed after another rule is still evaluated", 4, nil)
 			importRules(c, "C04", runC04, "C03-DESCENT", "an empty (zero) sub-object is never descended into, so its inner rules cannot produce an error for an optional field left empty (rule C04-GUARD)", 2, ruleIn("C04-GUARD"))
